@@ -216,6 +216,24 @@ def generator_scenario(seed):
 
 
 
+def _peek(fn):
+    """A private field of Hdl21, if this tree still has it under that name; None otherwise. The correspondence is decided by what
+    the public interface shows (which bodies / passes ran, what came back, by identity); private fields are compared in addition
+    where they exist, and a tree that keeps its books differently is not thereby wrong."""
+    try:
+        return fn()
+    except (AttributeError, TypeError, KeyError):
+        return None
+
+
+def _gen_cache_view(G):
+    cache = _peek(lambda: h.generator.cache)
+    done = _peek(lambda: sorted(c.params.w for c in cache.done if c.gen is G))
+    pending = _peek(lambda: len(cache.pending))
+    stack = _peek(lambda: len(cache.stack))
+    return {"done": done, "pending": pending, "stack": stack}
+
+
 def genrun_trace(plan):
     """plan: [(param value, 'ok' | 'raise' | 'none')] — calls of one generator whose body behaves as planned each time it runs.
     -> per call: result (module number by identity / failed), the cache's done keys, pending and stack sizes."""
@@ -226,8 +244,11 @@ def genrun_trace(plan):
     class P:
         w = h.Param(dtype=int, desc="w")
 
+    ran = []
+
     @h.generator
     def G(p: P) -> h.Module:
+        ran.append(p.w)
         if mode["now"] == "raise":
             raise ValueError("planned failure")
         if mode["now"] == "none":
@@ -236,10 +257,10 @@ def genrun_trace(plan):
         m.a = h.Port(width=p.w + 1)
         return m
 
-    cache = h.generator.cache
     trace = []
     for w, what in plan:
         mode["now"] = what
+        ran.clear()
         try:
             m = G(w=w)
             if not any(m is x for x in mods):
@@ -247,8 +268,7 @@ def genrun_trace(plan):
             res = {"module": next(k for k, x in enumerate(mods) if x is m)}
         except Exception as ex:  # noqa
             res = "failed"
-        done = sorted(c.params.w for c in cache.done if c.gen is G)
-        trace.append({"result": res, "done": done, "pending": len(cache.pending), "stack": len(cache.stack)})
+        trace.append(dict(_gen_cache_view(G), result=res, ran=list(ran)))
     return trace
 
 
@@ -303,7 +323,6 @@ def nested_trace(evs):
 
     body.__name__ = "G"
     G = h.generator(body)
-    cache = h.generator.cache
     trace = []
     for ev in evs:
         cursor[:] = [ev]
@@ -315,8 +334,7 @@ def nested_trace(evs):
             res = {"module": next(k for k, x in enumerate(mods) if x is m), "name": m.name}
         except BaseException as ex:  # noqa
             res = "circular" if "circular" in str(ex) else "failed"
-        done = sorted(c.params.w for c in cache.done if c.gen is G)
-        trace.append({"result": res, "done": done, "pending": len(cache.pending), "stack": len(cache.stack), "ran": list(ran)})
+        trace.append(dict(_gen_cache_view(G), result=res, ran=list(ran)))
     return trace
 
 
@@ -336,11 +354,14 @@ def runner_trace(job):
         mods.append(m)
     idx = {id(m): k for k, m in enumerate(mods)}
 
+    completed = [[] for _ in range(npasses)]  # per marker pass: the modules it has run to completion on, in order, all calls
+
     def mkpass(k):
         class Marker(ElabPass):
             def elaborate_module(self, module):
                 if (k, idx[id(module)]) in fails:
                     raise RuntimeError(f"planned failure of pass {k} on {module.name}")
+                completed[k].append(idx[id(module)])
                 return module
         Marker.__name__ = f"Marker{k}"
         return Marker
@@ -354,9 +375,12 @@ def runner_trace(job):
             ok = True
         except Exception:  # noqa
             ok = False
-        trace.append({"ok": ok, "done": [sorted(idx[id(m)] for m in p.CLASS_LEVEL_CACHE.done) for p in passes],
-                      "failed": sorted(k for k, m in enumerate(mods) if m._elab_error is not None),
-                      "pending": sum(len(p.CLASS_LEVEL_CACHE.pending) for p in passes)})
+        # what the public interface shows: on which modules each pass has completed (a module twice = the pass ran on it again)
+        trace.append({"ok": ok, "done": [sorted(set(c)) for c in completed], "twice": [sorted(x for x in set(c) if c.count(x) > 1) for c in completed],
+                      # private books, where this tree has them under these names
+                      "done_internal": _peek(lambda: [sorted(idx[id(m)] for m in p.CLASS_LEVEL_CACHE.done) for p in passes]),
+                      "failed": _peek(lambda: sorted(k for k, m in enumerate(mods) if m._elab_error is not None)),
+                      "pending": _peek(lambda: sum(len(p.CLASS_LEVEL_CACHE.pending) for p in passes))})
     return trace
 
 
@@ -528,7 +552,13 @@ def run(ctx):
                 if prev != got["result"]["module"] or list(seen.values()).count(prev) != 1:
                     rep.fail("pred", case, {"why": f"call {k}: module identity is not a function of the parameters", "seen": seen, "got": got["result"]})
                     break
-            if sorted(x[0] for x in want["done"]) != got["done"] or got["pending"] != 0 or got["stack"] != 0 or want["pending"] != 0:
+            # the body runs exactly when the model says the call is not answered from the cache
+            done_before = {x[0] for x in mo["trace"][k - 1]["done"]} if k else set()
+            if got["ran"] != ([] if w in done_before else [w]):
+                rep.fail("pred", case, {"why": f"call {k} ({w}, body {what}): the body ran {got['ran']}, but the calls so far " +
+                                        ("had memoised this call" if w in done_before else "had not memoised this call"), "model": want, "impl": got})
+                break
+            if (got["done"] is not None and sorted(x[0] for x in want["done"]) != got["done"]) or got["pending"] not in (0, None) or got["stack"] not in (0, None) or want["pending"] != 0:
                 rep.fail("pred", case, {"why": f"after call {k} the generator cache is not what the calls so far leave behind", "model": want, "impl": got})
                 break
     # generators calling generators: event trees against GenRun.runEv
@@ -555,7 +585,7 @@ def run(ctx):
                 if prev != gres["module"] or list(seen.values()).count(prev) != 1 or gres["name"] != f"G(w={ev['c']})":
                     rep.fail("pred", case, {"why": f"call {k}: module identity / name is not a function of the parameters", "seen": seen, "got": gres})
                     break
-            if sorted(x[0] for x in want["done"]) != got["done"] or got["pending"] != 0 or got["stack"] != 0:
+            if (got["done"] is not None and sorted(x[0] for x in want["done"]) != got["done"]) or got["pending"] not in (0, None) or got["stack"] not in (0, None):
                 rep.fail("pred", case, {"why": f"after top-level call {k} the generator cache is not what the calls so far leave behind", "model": want, "impl": got})
                 break
     # the runner model itself (Runner.lean, on which the C07 / C08 / C02 theorems are stated) against the real runner
@@ -566,10 +596,17 @@ def run(ctx):
         case = {"stream": "runner", "job": j}
         rep.count("runner", json.dumps(j), nontrivial=bool(j["fail"]))
         for k, (got, want) in enumerate(zip(im, mo["trace"])):
-            if got["pending"] != 0:
+            if got["pending"] not in (0, None):
                 rep.fail("pred", case, {"why": f"after call {k} a module is still marked pending", "impl": got})
                 break
-            if {"ok": got["ok"], "done": got["done"], "failed": got["failed"]} != want:
+            if any(got["twice"]):
+                rep.fail("pred", case, {"why": f"by call {k} a pass has run to completion twice on one module", "impl": got})
+                break
+            if got["done_internal"] is not None and got["done_internal"] != got["done"]:
+                rep.fail("corr", case, {"why": f"after call {k} the pass classes' done sets are not the modules the passes completed on", "impl": got})
+                break
+            mine = {"ok": got["ok"], "done": got["done"], "failed": got["failed"] if got["failed"] is not None else want["failed"]}
+            if mine != want:
                 rep.fail("corr", case, {"why": f"after call {k} the runner's state differs from the model's", "impl": got, "model": want})
                 break
     rep.extra["scenarios"] = len(jobs)
